@@ -20,12 +20,21 @@ Values
                 method calls are recorded as events); Closure / Bound / JitFn / GradFn / FunSym / LinOp / Partial: callables
 Control
     Conditions on unknown values consult a decision oracle; the caller re-runs the function for every decision sequence
-    (`explore`).  try/except: the oracle chooses which statement of the body raises (or none).  Loops are summarised: the body is
-    executed once, then everything it assigned is havocked.  `raise` ends the path.
+    (`explore`).  try/except: the oracle chooses which statement of the body raises (or none).  An index of unknown value into a sequence
+    of known length: one path per position.  `raise` ends the path.
+    Loops over a *known* finite sequence (literal tuple, range of constants, dict, enumerate/zip of such) are executed iteration by
+    iteration (exact; `return` / `break` / `continue` / `else` as in Python).  Inside the abstract iteration of a summarised loop such an
+    unrolling is speculative: it is kept only if no new condition on an unknown value had to be decided.  Other loops are summarised:
+    one iteration from the entry state, havoc of everything it changed, a second *generic* iteration from the havocked state (a later
+    iteration may be the one that returns), havoc again; what both iterations leave with the same value is loop invariant and keeps it.
+    `Machine.summarised` counts the summarised loops of a run (a result that depends on one is not exact).
 Calls
-    Nested functions, lambdas, methods and constructors of repository classes are interpreted.  A module-level repository function is
+    Nested functions, lambdas, methods, constructors of repository classes (also @dataclass), instances with `__call__`, functions stored
+    in a class body, functools.partial and jit of all of these are interpreted.  A module-level repository function is
     interpreted when the machine's `inline` predicate says so (helpers), otherwise the call is an opaque *use* event that records a
-    snapshot of every heap object it receives.  Anything the machine does not model raises Unsupported (the rule reports undecided).
+    snapshot of every heap object it receives.  Every interpreted activation is recorded in `Machine.activations` (scope, arguments,
+    value, range of events) so that rules can ask "what did the function during which this event happened return".
+    Anything the machine does not model raises Unsupported (the rule reports undecided).
 """
 from __future__ import annotations
 
@@ -59,6 +68,10 @@ class _Break(Exception):
 
 class _Continue(Exception):
     pass
+
+
+class _NeedSummary(Exception):
+    """a speculative exact unrolling met a condition on an unknown value"""
 
 
 MISSING = object()
@@ -217,10 +230,13 @@ class Oracle:
         self.taken = []          # (choice, number of options)
         self.cache = {}
         self.log = []            # (key, choice) for reports
+        self.frozen = 0          # > 0: no new decisions may be taken (speculative unrolling of a loop)
 
     def choose(self, key, n=2, weak=False):
         if key in self.cache:
             return self.cache[key]
+        if self.frozen:
+            raise _NeedSummary(key)
         i = len(self.taken)
         c = self.prefix[i] if i < len(self.prefix) else 0
         self.taken.append((c, n, key, weak))
@@ -261,6 +277,7 @@ ITERATIVE_SOLVERS = {"cg", "gmres", "minres", "bicgstab", "bicg", "cgs", "lgmres
 DIRECT_SOLVERS = {"spsolve", "solve"}
 IDENTITY_EXT = {"array", "asarray", "asanyarray", "float64", "float32", "device_put", "stop_gradient", "copy", "ascontiguousarray"}
 MATRIX_FORMAT = {"csc_matrix", "csr_matrix", "coo_matrix", "csc_array", "csr_array"}
+SHAPE_ONLY_METHODS = {"reshape", "ravel", "flatten", "squeeze", "astype", "copy", "block_until_ready", "view", "conj", "conjugate"}
 TRANSPARENT_WRAPPERS = {"jax.checkpoint", "jax.custom_jvp", "jax.named_call"}
 
 
@@ -290,6 +307,10 @@ class Machine:
         self.try_counter = {}
         self.expr_stmt_value = None
         self.watch = {}          # qualname -> callable(machine, phase, payload) for enter/exit notifications
+        self.activations = []    # one record per interpreted function activation (scope, arguments, value, range of events)
+        self.summarised = 0      # number of loops that were summarised (not unrolled) on this run
+        self.summary_depth = 0   # > 0 while the body of a summarised loop is interpreted
+        self.numified = set()    # names of opaque input objects that were used as numbers (arrays)
 
     # ------------------------------------------------------------------ atoms
     def sym(self, name, kind="sym", **extra):
@@ -381,6 +402,13 @@ class Machine:
             dc = r.d.const_value()
             out = Rat(Poly())
             for mono, c in r.n.t.items():
+                if len(mono) == 1 and mono[0][1] == 1:
+                    # op applied to the result of its own inverse (or the other way round) is the argument itself
+                    k_, ex_ = self.info.get(mono[0][0], ("", {}))
+                    if k_ == "lin" and (ex_["op"] == ("inv", op) or op == ("inv", ex_["op"])):
+                        inner = Rat(Poly({ex_["mono"]: Fraction(1)})) if "mono" in ex_ else ex_["rat"]
+                        out = out + inner * Rat(Poly.const(Fraction(c) / dc))
+                        continue
                 ms = "*".join(k if e == 1 else f"{k}^{e}" for k, e in mono) or "1"
                 name = f"{ops}[{ms}]"
                 if name not in self.info:
@@ -575,6 +603,7 @@ class Machine:
                 return self.sym(f"{b.name}.{v.name}" + (f"@{b.epoch}" if b.opaque and b.epoch else ""), "sym", args=())
             return self.app(f".{v.name}", [b])
         if isinstance(v, Obj) and v.opaque:
+            self.numified.add(v.name)
             return self.sym(v.name, "sym")
         if isinstance(v, Mat):
             return self.mat_as_vec(v)
@@ -731,6 +760,15 @@ class Machine:
             raise Unsupported(f"module binding {name} of kind {b.kind}")
         env.vars[name] = v
         return v
+
+    def class_env(self, c):
+        """environment in which the right-hand sides of class-level assignments are evaluated: the class's own functions and earlier
+        class-level names are visible, then the module"""
+        env = Env(c, self.modenv(c.module))
+        for ch in c.children:
+            if ch.kind == "function":
+                env.vars[ch.name] = Closure(ch, self.modenv(ch.module))
+        return env
 
     def root_module(self, env):
         e = env
@@ -921,6 +959,16 @@ class Machine:
             raise Unsupported("matrix operator")
         if not (self.is_numlike(a) and self.is_numlike(b)):
             raise Unsupported(f"operands {self.key(a)[:30]} {type(op).__name__} {self.key(b)[:30]}")
+        if isinstance(op, (ast.Mult, ast.Div)):
+            # an element-wise factor applied to stacked arrays reaches every part: s * stack((a, b)) = stack((s*a, s*b))
+            for u, w, left in ((a, b, True), (b, a, False)):
+                if isinstance(op, ast.Div) and not left:
+                    continue
+                st_ = self._stack_parts(u)
+                if st_ is not None and self.is_numlike(w):
+                    fname, parts, rest = st_
+                    scaled = type(parts)(self.binop(op, x_, w) if left else self.binop(op, w, x_) for x_ in parts)
+                    return self.app(fname, [scaled] + list(rest))
         x, y = self.num(a).r, self.num(b).r
         if isinstance(op, ast.Add):
             return Num(self.A.norm(x + y))
@@ -942,6 +990,22 @@ class Machine:
         names = {ast.MatMult: "matmul", ast.FloorDiv: "floordiv", ast.Mod: "mod", ast.BitAnd: "and", ast.BitOr: "or", ast.BitXor: "xor",
                  ast.LShift: "lshift", ast.RShift: "rshift"}
         return self.app(names.get(type(op), "binop"), [Num(x), Num(y)])
+
+    STACKING = {"column_stack", "stack", "vstack", "hstack", "concatenate", "row_stack", "dstack"}
+
+    def _stack_parts(self, v):
+        """(function, parts, other arguments) if v is exactly the value of a numpy stacking function applied to a tuple / list of arrays"""
+        if not isinstance(v, Num):
+            return None
+        ats = list(v.r.atoms())
+        if len(ats) != 1 or not self.equal(v, Num(self.A.atom(ats[0]))):
+            return None
+        k, ex = self.info.get(ats[0], ("", {}))
+        f = ex.get("f", "") if k == "app" else ""
+        if f.startswith("ext:") and f.split(".")[0] in ("ext:numpy", "ext:jax") and f.split(".")[-1] in self.STACKING and ex["args"] \
+                and isinstance(ex["args"][0], (tuple, list)) and all(self.is_numlike(x) for x in ex["args"][0]):
+            return f, ex["args"][0], ex["args"][1:]
+        return None
 
     def e_Compare(self, e, env):
         left = self.eval(e.left, env)
@@ -1055,7 +1119,10 @@ class Machine:
                 return tuple(seq[slice(lo, hi, st)])
             k = self._int(key)
             if k is None:
-                raise Unsupported(f"symbolic index {self.key(key)[:30]} into a tuple")
+                # an unknown position in a sequence of known length: one path per position (branch coverage inside loops)
+                if not self.is_numlike(key) or isinstance(key, bool) or not 0 < len(seq) <= 8:
+                    raise Unsupported(f"symbolic index {self.key(key)[:30]} into a tuple")
+                k = self.oracle.choose(f"index:{self.key(self.num(key))} of {len(seq)}", len(seq), self.loop_depth > 0)
             try:
                 return seq[k]
             except IndexError:
@@ -1144,6 +1211,28 @@ class Machine:
                     base.insert(m._int(args[0]), args[1])
                 return None
             return Builtin("list." + a, mut)
+        if isinstance(base, dict) and a in ("update", "pop", "setdefault", "copy"):
+            def dmut(m, args, kw, node, env, base=base, a=a):
+                if a == "update":
+                    for x in args:
+                        if isinstance(x, dict):
+                            base.update(x)
+                        elif isinstance(x, (list, tuple)) and all(isinstance(y, (list, tuple)) and len(y) == 2 for y in x):
+                            base.update({y[0]: y[1] for y in x})
+                        else:
+                            raise Unsupported("dict.update argument")
+                    base.update(kw)
+                    return None
+                if a == "copy":
+                    return dict(base)
+                if a == "pop":
+                    if args[0] in base:
+                        return base.pop(args[0])
+                    if len(args) > 1:
+                        return args[1]
+                    raise PathEnd("KeyError")
+                return base.setdefault(args[0], args[1] if len(args) > 1 else None)
+            return Builtin("dict." + a, dmut)
         if isinstance(base, dict) and a in ("get", "items", "keys", "values"):
             if a == "get":
                 return Builtin("dict.get", lambda m, args, kw, node, env, base=base: base.get(args[0], args[1] if len(args) > 1 else None))
@@ -1175,7 +1264,10 @@ class Machine:
                             raise Unsupported(f"decorated method {ch.qualname}")
                         return Bound(o, cl)
                 if a in c.bindings and c.bindings[a][-1].kind == "assign" and c.bindings[a][-1].value is not None:
-                    return self.eval(c.bindings[a][-1].value, self.modenv(c.module))
+                    v = self.eval(c.bindings[a][-1].value, self.class_env(c))
+                    if isinstance(v, Closure) or (isinstance(v, JitFn) and isinstance(v.fn, Closure)):
+                        return Bound(o, v)          # a function stored in the class body is a method
+                    return v
             if not o.spec:
                 raise PathEnd(f"AttributeError: {o.name}.{a}")
         return OpaqueAttr(o, a)
@@ -1271,7 +1363,9 @@ class Machine:
                         return self.opaque_call(sc.qualname, args, kwargs, node, callee_scope=sc)
             return self.call_closure(f, args, kwargs, node)
         if isinstance(f, Bound):
-            return self.call_closure(f.fn, [f.obj] + list(args), kwargs, node)
+            if isinstance(f.fn, Closure):
+                return self.call_closure(f.fn, [f.obj] + list(args), kwargs, node)
+            return self.call(f.fn, [f.obj] + list(args), kwargs, node, env)
         if isinstance(f, Builtin):
             return f.fn(self, args, kwargs, node, env)
         if isinstance(f, ExtRef):
@@ -1320,6 +1414,7 @@ class Machine:
                 self.stem_counter["ocall:" + stem] = k
                 r = self.sym(f"{stem}#{k}(" + ";".join(self.key(a) for a in args) + ")", "ret", event=idx, args=tuple(args))
                 self.events.append({"kind": "ocall", "ret": r, "obj": b, "meth": f.name, "args": list(args), "kwargs": dict(kwargs), "node": node, "idx": idx,
+                                    "discarded": node is not None and node is self.expr_stmt_value,
                                     "snap": {id(o): (o, dict(o.attrs)) for o in self.objs_in([b, args, kwargs])}})
                 b.epoch += 1
                 return r
@@ -1333,11 +1428,22 @@ class Machine:
                 return self.mat_mul(b, args[0])
             if f.name in ("copy", "block_until_ready", "squeeze_copy") and not args and isinstance(b, (Num, Mat)):
                 return b
+            if f.name in SHAPE_ONLY_METHODS and isinstance(b, Num) and not self.objs_in([args, kwargs]):
+                return b            # vectors and scalars are not distinguished: a change of shape / dtype keeps the value
             if self.objs_in([args, kwargs]):
                 return self.opaque_call(f".{f.name}", [b] + list(args), kwargs, node)
             return self.app(f".{f.name}", [b] + list(args) + [(k, kwargs[k]) for k in sorted(kwargs)])
         if isinstance(f, Obj) and f.opaque:
             return self.opaque_call(f.name, args, kwargs, node, force_event=True)
+        if isinstance(f, Obj) and (f.cls is not None or "__call__" in f.spec):
+            # instance of a class that defines __call__ (function object)
+            try:
+                meth = self.getattr_obj(f, "__call__")
+            except PathEnd:
+                raise PathEnd(f"{f.name} is not callable")
+            if isinstance(meth, OpaqueAttr):
+                raise Unsupported(f"call of the object {f.name}")
+            return self.call(meth, args, kwargs, node, env)
         if isinstance(f, Num):
             return self.opaque_call("call:" + self.key(f), args, kwargs, node)
         if isinstance(f, LinOp):
@@ -1389,14 +1495,21 @@ class Machine:
             env.vars.update(self.bind(sc, args, kwargs, f.env))
             w = self.watch.get(sc.qualname)
             token = w(self, "enter", {"scope": sc, "env": env, "node": node}) if w else None
-            if sc.kind == "lambda":
-                out = self.eval(sc.node.body, env)
-            else:
-                out = None
-                try:
-                    self.block(sc.node.body, env)
-                except _Return as r:
-                    out = r.value
+            act = {"scope": sc, "args": dict(env.vars), "node": node, "value": None, "returned": False, "ev_lo": len(self.events),
+                   "ev_hi": None, "depth": self.depth, "idx": len(self.activations)}
+            self.activations.append(act)
+            try:
+                if sc.kind == "lambda":
+                    out = self.eval(sc.node.body, env)
+                else:
+                    out = None
+                    try:
+                        self.block(sc.node.body, env)
+                    except _Return as r:
+                        out = r.value
+                act["value"], act["returned"] = out, True
+            finally:
+                act["ev_hi"] = len(self.events)
             if w:
                 w(self, "exit", {"scope": sc, "env": env, "node": node, "value": out, "token": token})
             return out
@@ -1411,6 +1524,28 @@ class Machine:
                 if ch.kind == "function" and ch.name == "__init__":
                     self.call_closure(Closure(ch, self.modenv(ch.module)), [o] + list(args), kwargs, node)
                     return o
+        decos = {norm_src(d).split("(")[0].split(".")[-1] for d in getattr(cls.node, "decorator_list", [])}
+        if "dataclass" in decos:
+            # generated constructor: the annotated class-level names, in order, bases first
+            fields = []
+            for c in reversed(self.repo.class_mro(cls)):
+                for stn in c.node.body:
+                    if isinstance(stn, ast.AnnAssign) and isinstance(stn.target, ast.Name):
+                        fields = [f for f in fields if f[0] != stn.target.id] + [(stn.target.id, stn.value, c)]
+            if len(args) > len(fields):
+                raise PathEnd(f"too many arguments for {cls.name}()")
+            vals = dict(zip([f[0] for f in fields], args))
+            for k, v in kwargs.items():
+                if k in vals or k not in [f[0] for f in fields]:
+                    raise PathEnd(f"bad keyword {k} for {cls.name}()")
+                vals[k] = v
+            for (fname, dflt, c) in fields:
+                if fname not in vals:
+                    if dflt is None:
+                        raise PathEnd(f"missing field {fname} of {cls.name}()")
+                    vals[fname] = self.eval(dflt, self.modenv(c.module))
+                self.setattr(o, fname, vals[fname], node)
+            return o
         if args or kwargs:
             raise PathEnd(f"{cls.name}() takes no arguments")
         return o
@@ -1444,6 +1579,10 @@ class Machine:
                 return (list if last == "list" else tuple)(self.as_list(args[0]))
         if name == "builtins.dict" and not args:
             return dict(kwargs)
+        if name == "builtins.dict" and len(args) == 1 and isinstance(args[0], dict):
+            return {**args[0], **kwargs}
+        if name == "builtins.dict" and len(args) == 1 and isinstance(args[0], (list, tuple)) and all(isinstance(y, (list, tuple)) and len(y) == 2 for y in args[0]):
+            return {**{y[0]: y[1] for y in args[0]}, **kwargs}
         if name in ("builtins.float", "builtins.int") and len(args) == 1 and isinstance(args[0], (int, float, Fraction)) and not isinstance(args[0], bool):
             return args[0]
         if name == "builtins.float" and len(args) == 1 and self.is_numlike(args[0]):
@@ -1472,8 +1611,33 @@ class Machine:
             return self.oracle.choose(f"hasattr:{self.key(o)}.{args[1]}", 2, self.loop_depth > 0) == 0
         if name == "builtins.pow" and len(args) == 2:
             return self.binop(ast.Pow(), args[0], args[1])
-        if name in ("builtins.enumerate", "builtins.zip") and all(isinstance(a, (tuple, list)) for a in args):
-            return list(enumerate(args[0])) if last == "enumerate" else list(zip(*args))
+        if name in ("builtins.enumerate", "builtins.zip") and args and all(isinstance(a, (tuple, list, Record, dict)) for a in args):
+            seqs = [list(a.keys()) if isinstance(a, dict) else self.as_list(a) for a in args]
+            if last == "enumerate":
+                k0 = self._int(kwargs.get("start", 0))
+                return [(k0 + i, x) for i, x in enumerate(seqs[0])] if k0 is not None and len(seqs) == 1 else self._fail("enumerate call form")
+            return list(zip(*seqs))
+        if name == "builtins.enumerate" and len(args) == 2 and isinstance(args[0], (tuple, list, Record)) and self._int(args[1]) is not None:
+            return [(self._int(args[1]) + i, x) for i, x in enumerate(self.as_list(args[0]))]
+        if name == "builtins.map" and len(args) >= 2 and all(isinstance(a, (tuple, list, Record)) for a in args[1:]):
+            return [self.call(args[0], list(xs), {}, node, env) for xs in zip(*[self.as_list(a) for a in args[1:]])]
+        if name == "builtins.sum" and args and isinstance(args[0], (tuple, list)) and all(self.is_numlike(x) for x in args[0]):
+            tot = self.num(args[1]) if len(args) > 1 else self.const(0)
+            for x in args[0]:
+                tot = self.binop(ast.Add(), tot, x)
+            return tot
+        if name in ("builtins.any", "builtins.all") and len(args) == 1 and isinstance(args[0], (tuple, list)):
+            ts = [self.truth(x) for x in args[0]]
+            return any(ts) if last == "any" else all(ts)
+        if name == "builtins.reversed" and len(args) == 1 and isinstance(args[0], (tuple, list, Record)):
+            return list(reversed(self.as_list(args[0])))
+        if name == "builtins.setattr" and len(args) == 3 and isinstance(args[1], str):
+            self.setattr(args[0], args[1], args[2], node)
+            return None
+        if name == "builtins.bool" and len(args) == 1:
+            return self.truth(args[0])
+        if name in ("jax.tree_util.tree_map", "jax.tree_map") and len(args) >= 2 and not kwargs:
+            return self.tree_map(args[0], list(args[1:]), node, env)
         if name == "builtins.callable":
             return isinstance(args[0], (Closure, Bound, Builtin, ExtRef, ClassRef, FunSym, GradFn, JitFn, Partial)) or \
                 self.oracle.choose("callable:" + self.key(args[0])) == 0
@@ -1559,9 +1723,43 @@ class Machine:
             return LinOp(mv)
         if last == "aslinearoperator" and top == "scipy" and len(args) == 1:
             return args[0]
-        if (last in ITERATIVE_SOLVERS or last in DIRECT_SOLVERS) and top in ("scipy", "jax") and len(args) >= 2:
-            return self.linear_solve(name, args, kwargs, node, env, pair=last in ITERATIVE_SOLVERS)
+        if (last in ITERATIVE_SOLVERS or last in DIRECT_SOLVERS) and top in ("scipy", "jax"):
+            kw = dict(kwargs)
+            pos = list(args)
+            if len(pos) < 1 and "A" in kw:
+                pos.append(kw.pop("A"))
+            if len(pos) < 2 and "b" in kw:
+                pos.append(kw.pop("b"))
+            if len(pos) >= 2:
+                return self.linear_solve(name, pos, kw, node, env, pair=last in ITERATIVE_SOLVERS)
+        if top in ("numpy", "jax") and any(isinstance(o_, Obj) and o_.opaque for o_ in self.objs_in([args, kwargs])) and not any(
+                isinstance(o_, Obj) and not o_.opaque for o_ in self.objs_in([args, kwargs])):
+            # array functions applied to opaque inputs: the inputs are arrays
+            def arr(v):
+                if isinstance(v, Obj) and v.opaque:
+                    return self.num(v)
+                if isinstance(v, (tuple, list)):
+                    return type(v)(arr(x) for x in v)
+                return v
+            return self.opaque_call("ext:" + name, [arr(a) for a in args], {k: arr(v) for k, v in kwargs.items()}, node)
         return self.opaque_call("ext:" + name, args, kwargs, node)
+
+    def tree_map(self, f, trees, node, env):
+        """jax.tree_util.tree_map over numbers, tuples / lists and namedtuples of identical structure"""
+        t0 = trees[0]
+        if t0 is None:
+            return None
+        if isinstance(t0, Record):
+            if not all(isinstance(t, Record) and len(t.values) == len(t0.values) for t in trees):
+                raise Unsupported("tree_map over different structures")
+            return Record(t0.tname, t0.fields, [self.tree_map(f, [t.values[i] for t in trees], node, env) for i in range(len(t0.values))])
+        if isinstance(t0, (tuple, list)):
+            if not all(isinstance(t, (tuple, list)) and len(t) == len(t0) for t in trees):
+                raise Unsupported("tree_map over different structures")
+            return type(t0)(self.tree_map(f, [t[i] for t in trees], node, env) for i in range(len(t0)))
+        if self.is_numlike(t0):
+            return self.call(f, trees, {}, node, env)
+        raise Unsupported("tree_map over an unknown structure")
 
     def jvp(self, args, kwargs, node, env):
         if len(args) != 3 or kwargs:
@@ -1680,6 +1878,8 @@ class Machine:
             raise _Continue()
         elif isinstance(st, ast.Try):
             self.exec_try(st, env)
+        elif hasattr(ast, "Match") and isinstance(st, ast.Match):
+            self.exec_match(st, env)
         elif isinstance(st, ast.With):
             for it in st.items:
                 cm = self.eval(it.context_expr, env)
@@ -1688,6 +1888,30 @@ class Machine:
             self.block(st.body, env)
         else:
             raise Unsupported(f"statement {type(st).__name__}")
+
+    def exec_match(self, st, env):
+        """match on a subject with literal / or / capture / wildcard patterns (the forms a slot dispatch would use)"""
+        subj = self.eval(st.subject, env)
+
+        def matches(pat):
+            if isinstance(pat, ast.MatchValue):
+                r = self.compare(subj, ast.Eq(), self.eval(pat.value, env))
+                return r if isinstance(r, bool) else self.truth(r)
+            if isinstance(pat, ast.MatchSingleton):
+                return subj is pat.value or (isinstance(subj, bool) and isinstance(pat.value, bool) and subj == pat.value)
+            if isinstance(pat, ast.MatchOr):
+                return any(matches(q) for q in pat.patterns)
+            if isinstance(pat, ast.MatchAs):
+                if pat.pattern is not None and not matches(pat.pattern):
+                    return False
+                if pat.name is not None:
+                    self.setvar(pat.name, subj, env)
+                return True
+            raise Unsupported("match pattern " + type(pat).__name__)
+        for case in st.cases:
+            if matches(case.pattern) and (case.guard is None or self.truth(self.eval(case.guard, env))):
+                self.block(case.body, env)
+                return
 
     def assign(self, t, v, env, st=None):
         if isinstance(t, ast.Name):
@@ -1729,29 +1953,128 @@ class Machine:
         else:
             raise Unsupported("assignment target")
 
+    _STORED = {}
+    _HASRET = {}
+
     @staticmethod
     def stored_names(body):
+        k = tuple(id(x) for x in body) if isinstance(body, list) else id(body)
+        hit = Machine._STORED.get(k)
+        if hit is not None and hit[0] is (body[0] if isinstance(body, list) and body else body):
+            return set(hit[1])
         out = set()
         for n in walk_local(body):
             if isinstance(n, ast.Name) and isinstance(n.ctx, ast.Store):
                 out.add(n.id)
             elif isinstance(n, ast.FunctionDef):
                 out.add(n.name)
+        Machine._STORED[k] = ((body[0] if isinstance(body, list) and body else body), frozenset(out))
         return out
+
+    UNROLL_MAX = 64
 
     def exec_for(self, st, env):
         it = self.eval(st.iter, env)
         items = None
-        if isinstance(it, (tuple, list, Record)):
+        if isinstance(it, dict):
+            items = list(it.keys())
+        elif isinstance(it, (tuple, list, Record)):
             items = self.as_list(it)
         if items is not None and not items:
             self.block(st.orelse, env)
             return
+        if items is not None and len(items) <= self.UNROLL_MAX:
+            # a loop over a known finite sequence is executed iteration by iteration (exact).  Conditions on unknown values inside long
+            # loops are explored with branch coverage only; inside the abstract iteration of a summarised loop the unrolling is
+            # speculative: it is kept only if no new condition on an unknown value had to be decided (else the loop is summarised)
+            if self.summary_depth == 0 or self._speculate(lambda: self._unroll(st, items, env), st, env):
+                if self.summary_depth == 0:
+                    self._unroll(st, items, env)
+                return
         first = items[0] if items else self.fresh(f"loop@{getattr(st, 'lineno', 0)}:item", "havoc", args=())
         self.loop_summary(st, st.body, env, lambda: self.assign(st.target, first, env, st), extra=self.stored_names([st.target]) if not isinstance(st.target, ast.Name) else {st.target.id})
 
+    def _unroll(self, st, items, env):
+        weak = len(items) > 4
+        if weak:
+            self.loop_depth += 1
+        broke = False
+        try:
+            for x in list(items):
+                self.assign(st.target, x, env, st)
+                try:
+                    self.block(st.body, env)
+                except _Break:
+                    broke = True
+                    break
+                except _Continue:
+                    continue
+        finally:
+            if weak:
+                self.loop_depth -= 1
+        if not broke:
+            self.block(st.orelse, env)
+
+    def _speculate(self, action, st, env):
+        """run `action` without taking new decisions; on failure undo its effects (variables of the frame, attributes, events) -> False"""
+        names = self.stored_names([st])
+        saved = {}
+        for n in names:
+            e = env.find(n)
+            saved[n] = (e, e.vars[n]) if e is not None else (None, MISSING)
+        marks = (len(self.events), len(self.setlog), len(self.activations), self.depth, self.jit_depth, self.loop_depth, dict(self.stem_counter),
+                 dict(self.try_counter), self.summarised)
+        self.oracle.frozen += 1
+        try:
+            action()
+            return True
+        except _NeedSummary:
+            for (o, a, old) in reversed(self.setlog[marks[1]:]):
+                if old is MISSING:
+                    o.attrs.pop(a, None)
+                else:
+                    o.attrs[a] = old
+            del self.events[marks[0]:]
+            del self.setlog[marks[1]:]
+            del self.activations[marks[2]:]
+            self.depth, self.jit_depth, self.loop_depth = marks[3], marks[4], marks[5]
+            self.stem_counter, self.try_counter, self.summarised = marks[6], marks[7], marks[8]
+            for n, (e, v) in saved.items():
+                if e is None:
+                    e2 = env.find(n)
+                    if e2 is not None:
+                        e2.vars.pop(n, None)
+                else:
+                    e.vars[n] = v
+            return False
+        finally:
+            self.oracle.frozen -= 1
+
     def loop_summary(self, st, body, env, prologue, extra=()):
-        """one abstract iteration, then havoc everything the body may have changed"""
+        """Summary of a loop whose iterations are not known: one abstract iteration from the entry state, havoc of everything the body may
+        have changed, then a second, *generic* iteration from the havocked state (a later iteration may be the one that returns -- its
+        value is then an expression over the havocked variables), followed by another havoc.  What both iterations leave with the same value
+        does not depend on anything the loop changes: it is loop invariant and keeps that value instead of being havocked."""
+        self.summarised += 1
+        ends1 = self._loop_pass(st, body, env, prologue, extra)
+
+        def generic():
+            if isinstance(st, ast.For):
+                self.assign(st.target, self.fresh(f"loop@{getattr(st, 'lineno', 0)}:item", "havoc", args=()), env, st)
+            else:
+                prologue()
+        ends2 = self._loop_pass(st, body, env, generic, extra)
+        for k, v1 in ends1[0].items():
+            v2 = ends2[0].get(k, MISSING)
+            if v2 is not MISSING and self._same_value(v1, v2):
+                self.setvar(k, v1, env)
+        for k, (o, a, v1) in ends1[1].items():
+            hit = ends2[1].get(k)
+            if hit is not None and self._same_value(v1, hit[2]):
+                o.attrs[a] = v1
+
+    def _loop_pass(self, st, body, env, prologue, extra=()):
+        """one abstract iteration + havoc; returns what the iteration left in the variables / attributes it changed (before the havoc)"""
         names = self.stored_names(body) | set(extra)
         before = {}
         for n in names:
@@ -1759,6 +2082,7 @@ class Machine:
             before[n] = e.vars[n] if e is not None and (e is env or n in getattr(env.scope, "nonlocals_", ())) else MISSING
         mark = len(self.setlog)
         self.loop_depth += 1
+        self.summary_depth += 1
         try:
             prologue()
             try:
@@ -1767,7 +2091,9 @@ class Machine:
                 pass
         finally:
             self.loop_depth -= 1
+            self.summary_depth -= 1
         ln = getattr(st, "lineno", 0)
+        end_vars, end_attrs = {}, {}
         for n in sorted(names):
             e = env.find(n)
             cur = e.vars[n] if e is not None else MISSING
@@ -1775,14 +2101,19 @@ class Machine:
                 continue
             b = before.get(n, MISSING)
             if b is MISSING or not self._same_value(b, cur):
+                end_vars[n] = cur
                 self.setvar(n, self.fresh(f"loop@{ln}:{n}", "havoc", args=(cur,) if isinstance(cur, (Num, OpaqueAttr)) else ()), env)
         seen = set()
         for (o, a, old) in self.setlog[mark:]:
             if (id(o), a) in seen:
                 continue
             seen.add((id(o), a))
-            if old is MISSING or not self._same_value(old, o.attrs.get(a, MISSING)):
+            cur = o.attrs.get(a, MISSING)
+            if old is MISSING or not self._same_value(old, cur):
+                if cur is not MISSING:
+                    end_attrs[(id(o), a)] = (o, a, cur)
                 o.attrs[a] = self.fresh(f"loop@{ln}:{o.name}.{a}", "havoc", args=())
+        return end_vars, end_attrs
 
     def _same_value(self, a, b):
         if a is MISSING or b is MISSING:
